@@ -237,7 +237,7 @@ def run(ctx):
         for path, text in corpus.texts(ctx):
             judge(ctx, eng, front, text, "corpus", corpus.rel(path))
         for j in range(ctx.n(350, 15000)):
-            nodes = gen.gen_document(r, gen.GenOpts(gated=ctx.gated, p_key=r.choice([0.2, 0.4]), dup=0.02))
+            nodes = gen.gen_document(r, gen.GenOpts(gated=ctx.gated, p_key=r.choice([0.2, 0.4]), dup=0.02, dup_blocks=0.25 if r.random() < 0.3 else 0.0))
             s = render.surfaces(r, 1)[0]
             s.gap_comments = r.choice([0.1, 0.3, 0.5])
             if r.random() < 0.4:
